@@ -26,6 +26,9 @@ Definition nodup (q : sq) : Prop :=
 
 Definition POW30 : Z := 1073741824.
 
+(* The invariant does not mention nodeIndex: Push / PushLeft / Pop / PopRight / Head / Tail / Len never read it (they
+   only increment it in mallocQueue), and db.go's restructuringLong*Queue leaves it pointing at a freed node
+   (finding C20-F3).  Only Reset / Rellac / freeQueue / Restructuring / Resize index with it. *)
 Record Inv (q : sq) : Prop := mkInv {
   I_ns : nodeSize q = Z.of_nat (length (queues q));
   I_nodes : nodes_ok q;
@@ -40,8 +43,7 @@ Record Inv (q : sq) : Prop := mkInv {
   I_hqs : zget (nodeQueueSizes q) (headNodeIndex q) = Some (headQueueSize q);
   I_tq : zget (queues q) (tailNodeIndex q) = Some (tailQueue q);
   I_tqs : zget (nodeQueueSizes q) (tailNodeIndex q) = Some (tailQueueSize q);
-  I_alloc : forall i, 0 <= i <= Z.max (tailNodeIndex q) (nodeIndex q) -> exists id, zget (queues q) i = Some (Some id);
-  I_ni : 0 <= nodeIndex q < Z.of_nat (length (queues q));
+  I_alloc : forall i, 0 <= i <= tailNodeIndex q -> exists id, zget (queues q) i = Some (Some id);
   I_base : 1 <= baseNodeSize q;
   I_qs : 1 <= queueSize q < POW30;
   I_szb : Forall (fun s => s < POW30) (nodeQueueSizes q);
